@@ -948,7 +948,7 @@ pub fn main(args: &[String]) {
     w.flush();
     sum.case_files = w.files.clone();
     sum.rule = if is_service {
-        "PONG scripts against a real Service (no handler task): minimum 2..5, vote_duration 80 ms on the real clock, IPv4-only and dual-stack mode, 2-3 IPv4 and 0-2 IPv6 reported addresses, 12 voters of which 3 are never in the routing table, the voter's table status (connected/outgoing, connected/incoming, disconnected, unchanged) set before each PONG and read back, half of the PONGs through handle_rpc_response and half through handle_ip_vote_from_pong, sleeps of 1/3 and 5/4 of the vote duration, initial record with or without an address; a case ends at the first time-ambiguous step; non-trivial = the record's address changed at least once; distinct = new observation trace".to_string()
+        "PONG scripts against a real Service (no handler task): minimum 2..5, vote_duration 80 ms on the real clock, IPv4-only and dual-stack mode; half of the cases are random scripts over 2-3 IPv4 and 0-4 IPv6 reported addresses (share of IPv6 PONGs 2/10..7/10, primary : rival : other address 6:3:1 .. 4:3:3), 3/10 are scripts in which a majority becomes clear through a PONG for ANOTHER address (a = 3..5 eligible voters for A against b voters for B with threshold(a) <= b <= a, B reported first, then B voters defect one by one to third addresses) and 2/10 the same with the rival running out instead (B reported, half a vote duration later A, 6/10 of a vote duration later a PONG for a third address or for B), two thirds of both in the IPv6 family, followed by a random tail; 12 voters of which 3 are never in the routing table, the voter's table status (connected/outgoing, connected/incoming, disconnected, unchanged) set before each PONG and read back, half of the PONGs through handle_rpc_response and half through handle_ip_vote_from_pong, sleeps of 1/3 and 5/4 of the vote duration, initial record with or without an address; a case ends at the first time-ambiguous step; every change of the record is compared with the bounds the votes sent give (distinct voters ever, possible current voters, certain rivals) and, when the votes sent determine it (every live voter's most recent PONG certainly counted, no expiry inside the measured bracket), with the monitor's own tally of the most recent unexpired vote per voter; non-trivial = the record's address changed at least once; distinct = new observation trace".to_string()
     } else {
         format!("IpVote through IpVoteFacade on the real clock: first {} boundary probes (leading count 2..65 and random counts up to 400, rival one below / at the code's threshold, then a voter changing its vote; vote_duration 1 h), then scripts with minimum 2..6, vote_duration 30 ms, up to 14 voters, 2-4 IPv4 and 0-3 IPv6 addresses (primary : rival : other = 6:3:1), majority() after every insert, has_minimum_threshold(), sleeps of 1/3 and 6/5 of the vote duration; steps whose result could depend on where in the measured bracket the clock was read are skipped and counted; non-trivial = some majority existed or a leader was denied by a rival; distinct = new observation trace", nprobe)
     };
